@@ -193,6 +193,12 @@ func registerVrt(p *Program) {
 	intr["vrtTokens"] = func(fr *frame, a []value) value {
 		s := setup(fr)
 		for _, x := range a[0].([]value) {
+			// a slice passed as `any` is stored in cells as the bare slice
+			if it, ok := x.(iface); ok && it.t != nil {
+				if _, isSlice := it.t.Underlying().(*types.Slice); isSlice {
+					x = it.v
+				}
+			}
 			found := false
 			for _, tv := range s.tokens {
 				if eq, ok := plainEqualDeep(tv, x); ok && eq {
@@ -312,9 +318,6 @@ func registerSync(p *Program) {
 			}
 			free := m.equalsV(nil, *cell, zeroLike(*cell))
 			if !m.decide(free, "mutex-free") {
-				if m.seg.holding > 0 {
-					panic(unsupported{"blocking Lock inside a lock region"})
-				}
 				panic(blockedSignal{"Mutex.Lock"})
 			}
 			*cell = oneLike(*cell)
@@ -889,6 +892,26 @@ func registerMisc(p *Program) {
 		return n.obj.(*regexp.Regexp).MatchString(fr.m.concreteStr(a[1], "regexp input"))
 	}
 
+	ext["(*regexp.Regexp).ReplaceAllString"] = func(fr *frame, a []value) value {
+		n := (*fr.m.nonNil(a[0])).(*native)
+		return n.obj.(*regexp.Regexp).ReplaceAllString(fr.m.concreteStr(a[1], "regexp input"), fr.m.concreteStr(a[2], "regexp replacement"))
+	}
+	ext["(*regexp.Regexp).FindStringSubmatch"] = func(fr *frame, a []value) value {
+		n := (*fr.m.nonNil(a[0])).(*native)
+		res := n.obj.(*regexp.Regexp).FindStringSubmatch(fr.m.concreteStr(a[1], "regexp input"))
+		if res == nil {
+			return []value(nil)
+		}
+		out := make([]value, len(res))
+		for i, s := range res {
+			out[i] = s
+		}
+		return out
+	}
+	ext["(*regexp.Regexp).Match"] = func(fr *frame, a []value) value {
+		n := (*fr.m.nonNil(a[0])).(*native)
+		return n.obj.(*regexp.Regexp).MatchString(fr.m.concreteStr(mkString(a[1].([]value)), "regexp input"))
+	}
 	// net helpers on concrete strings
 	ext["net.SplitHostPort"] = func(fr *frame, a []value) value {
 		h, pt, err := net.SplitHostPort(fr.m.concreteStr(a[0], "net.SplitHostPort"))
